@@ -510,6 +510,6 @@ Proof.
       destruct ((10 <? h) && ((if s_min m =? 0 then h else s_min m) <? h - 10)); [reflexivity|].
       destruct (s_min m =? 0) eqn:E0; [reflexivity|].
       destruct N7 as [N7 | [A _]]; [exact N7 | rewrite A in E0; discriminate].
-    + right. rewrite F11, F10. exact F15.
+    + right. rewrite F11, F10. split; [rewrite Hh; lia | exact F15].
 Qed.
 End FlushCommitSim2.
